@@ -1,0 +1,50 @@
+//go:build verif
+
+// Contracts for the deductive verifier in /verif (comment-only; compiled only
+// with -tags verif).  Syntax: see /verif/DESIGN.md.
+package lfsapi
+
+// C10.  URL userinfo is turned into an Authorization header only when the URL
+// it comes from has the request's scheme and host:port.
+//@ func setRequestAuthFromURL
+//@   props C10
+//@   requires @inv req != nil && req.URL != nil && u != nil
+//@   requires @C10 u.Scheme == req.URL.Scheme && u.Host == req.URL.Host
+//@   modifies mapkey req.Header["Authorization"]
+
+// The URL for which credentials are requested has the request's scheme and
+// host:port, so whatever the helper returns was obtained for that origin.
+//@ func getCredURLForAPI
+//@   props C10
+//@   requires @inv req != nil && req.URL != nil
+//@   modifies mapkey req.Header["Authorization"]
+//@   ensures result1 == nil && result0 != nil ==> result0.Scheme == req.URL.Scheme && result0.Host == req.URL.Host
+
+//@ iface (EndpointFinder).GitRemoteURL
+//@   noeffect
+
+// The authentication/redirect cycle doWithAuth -> doWithCreds -> doWithAuth:
+// every turn must extend the redirect chain, which is cut at three requests.
+//@ func (*Client).doWithAuth
+//@   props C10
+//@   recgroup authredirect
+//@   decreases 3 - len(via), 1
+//@ func (*Client).doWithCreds
+//@   props C10
+//@   recgroup authredirect
+//@   requires @inv req != nil && req.URL != nil && req.Header != nil
+//@   requires @inv forall_v(k, has(req.Header, k), has(req.Header, k) ==> str_canon(k) == k)
+//@   decreases 3 - len(via), 0
+
+// getCreds is a separate unit (its body is not spliced into doWithAuth).
+//@ func (*Client).getCreds
+//@   props C10
+//@   requires @inv req != nil && req.URL != nil
+
+// Assumed: adding the configured extra headers keeps header keys canonical
+// (extraHeaders canonicalises them) and yields a non-nil header map.
+//@ func (*github.com/git-lfs/git-lfs/v3/lfshttp.Client).ExtraHeadersFor
+//@   assumed
+//@   props C10
+//@   modifies fresh
+//@   ensures result != nil && forall_v(k, has(result, k), has(result, k) ==> str_canon(k) == k)
